@@ -82,7 +82,7 @@ var letters = []string{"a", "b", "c"}
 func VH_C16_select() {
 	m.Reset()
 	src, dst := m.Root("src"), m.Root("dst")
-	// tree X/{P, Q/{R}}, Y (+ an empty directory E) with names from {a, b, c}, siblings ascending
+	// tree X/{P, PP/ (empty), Q/{R}}, Y with names from {a, b, c}, siblings ascending
 	// one concrete tree a/{a, b/{a}}, b (FIX=1): every template names something in it
 	x, y, p, q, r := "a", "b", "a", "b", "a"
 	if v.Param("FIX", 0) == 0 {
@@ -94,13 +94,16 @@ func VH_C16_select() {
 	}
 	m.MkDir(src+"/"+x, 0751, 3, 4, 5)
 	m.MkFile(src+"/"+x+"/"+p, []byte("p"), 0644, 1, 1, 9000000000)
+	// an empty directory between P and Q in listing order (a < aa < b < bb < c)
+	e := x + "/" + p + p
+	m.MkDir(src+"/"+e, 0700, 7, 8, 5)
 	m.MkDir(src+"/"+x+"/"+q, 0715, 5, 6, 5)
 	m.MkFile(src+"/"+x+"/"+q+"/"+r, []byte("r"), 0644, 1, 1, 9000000000)
 	m.MkFile(src+"/"+y, []byte("y"), 0644, 1, 1, 9000000000)
 	m.SetMtime(src+"/"+x+"/"+q, 8000000000)
 	m.SetMtime(src+"/"+x, 8000000000)
-	all := []string{x, x + "/" + p, x + "/" + q, x + "/" + q + "/" + r, y}
-	isDir := map[string]bool{x: true, x + "/" + q: true}
+	all := []string{x, x + "/" + p, e, x + "/" + q, x + "/" + q + "/" + r, y}
+	isDir := map[string]bool{x: true, e: true, x + "/" + q: true}
 
 	incS, excS := choosePatterns("inc", v.Param("NI", 1)), choosePatterns("exc", v.Param("NE", 1))
 	if v.Param("POP", 0) != 0 && v.Bool("populated") {
